@@ -297,6 +297,11 @@ class Renderer:
                 vals.append(self.byte(v) if isinstance(v, int)
                             else self.hexv(v))
             self.emit('!' + name, '[', *vals, ']')
+        elif t == 'macrocall':
+            self.features.add('macro-called-again')
+            vals = [self.byte(v) if isinstance(v, int) else self.hexv(v)
+                    for v in n[2]]
+            self.emit('!' + n[1], '[', *vals, ']')
         elif t == 'comptime_push':
             self.features.add('comptime')
             self.emit(self.case('OP_PUSH' if not self.chance('bare')
